@@ -101,6 +101,34 @@ def table():
         print(f"{os.path.basename(d[:-1]):8} detected_by={','.join(det) or '-':28} silent={','.join(miss) or '-':20} {meta['title'][:110]}")
 
 
+def design_table():
+    """Rewrite the table between the SEEDED-TABLE markers of DESIGN.md from seeded/*/{meta,confirm,result}.json."""
+    rows = []
+    for d in sorted(glob.glob(f"{VERIF}/seeded/*/")):
+        if not os.path.exists(d + "meta.json"):
+            continue
+        sid = os.path.basename(d[:-1])
+        meta = json.load(open(d + "meta.json"))
+        runs = json.load(open(d + "result.json"))["runs"] if os.path.exists(d + "result.json") else []
+        conf = json.load(open(d + "confirm.json")) if os.path.exists(d + "confirm.json") else {}
+        det = sorted({f"{c} {r['tier']}" for r in runs for c in r["detected_by"]})
+        files = sorted({os.path.basename(f) for f in meta.get("files", [])}) if isinstance(meta.get("files"), list) else []
+        title = meta["title"].replace("|", "\\|").replace("\n", " ")
+        if len(title) > 150:
+            title = title[:147] + "..."
+        rows.append(f"| {sid} | {', '.join(files)[:40]} | {title} | {conf.get('tests_passed', '?')}/84 | {', '.join(det) if det else '**not detected**'} |")
+    table = "| seeded change | file(s) | what it breaks | tests | detected by |\n|---|---|---|---|---|\n" + "\n".join(rows)
+    p = os.path.join(VERIF, "DESIGN.md")
+    s = open(p, encoding="utf-8").read()
+    b, e = "<!-- SEEDED-TABLE-BEGIN -->", "<!-- SEEDED-TABLE-END -->"
+    if b in s and e in s:
+        s = s[: s.index(b) + len(b)] + "\n" + table + "\n" + s[s.index(e):]
+        open(p, "w", encoding="utf-8").write(s)
+        print(f"DESIGN.md: {len(rows)} rows written")
+    else:
+        print(table)
+
+
 if __name__ == "__main__":
     a = sys.argv[1:]
     if not a:
@@ -127,3 +155,5 @@ if __name__ == "__main__":
             run(d, checks, tier)
     elif cmd == "table":
         table()
+    elif cmd == "design-table":
+        design_table()
